@@ -297,7 +297,10 @@ def run_one(job):
             if r2.obs is not None:
                 v2 = check(sc, r2.obs, common.new_part())
                 if not [x for x in v2 if "timeout" in x[0] or "rearmed" in x[0]]:
-                    v = [x for x in v if x not in timing]
+                    # the first run was disturbed by the clock (a starved process sees its 5 s inactivity timer expire and
+                    # the task stop early, which also shows as missing bytes / missing EOF): the undisturbed re-run decides
+                    common.part_count(part, "timing_disturbed_first_runs", 1)
+                    v = v2
         for key, detail in v:
             part["violations"].append((key, dict(wit, detail=detail)))
         tpcommon.triage_into(part, r.err, wit, san)
